@@ -262,8 +262,9 @@ Section CacheProofs.
 Variable inval : N -> bool.
 Variable keep : N -> bool.
 Variable eps num den : N.
-Notation stepm := (step inval keep eps num den).
-Notation runm := (run inval keep eps num den).
+Variable maxd : N.
+Notation stepm := (step inval keep eps num den maxd).
+Notation runm := (run inval keep eps num den maxd).
 
 (* a cached index always stands for the collection's current data *)
 Definition CacheInv (s : st) : Prop :=
@@ -298,12 +299,15 @@ Proof.
   assert (H6 : inval 6 = true) by (apply Hall; cbn; tauto).
   assert (H7 : inval 7 = true) by (apply Hall; cbn; tauto).
   destruct o as [c k v|c k v|c k|kvs|ks| |c|c|c|c k|c q k|q k m|c q k b strat]; cbn [step fst].
-  - destruct v; [exact Hs|]. cbn [fst]. apply inv_put; [|exact Hs]. unfold M_STORE, M_COLL_STORE. destruct (N.eqb c 0); assumption.
-  - destruct v; [exact Hs|]. cbn [fst]. apply inv_put; [|exact Hs]. unfold M_STORE_META, M_COLL_STORE. destruct (N.eqb c 0); assumption.
+  - destruct v; [exact Hs|]. destruct (too_long maxd (n :: v)); [exact Hs|].
+    cbn [fst]. apply inv_put; [|exact Hs]. unfold M_STORE, M_COLL_STORE. destruct (N.eqb c 0); assumption.
+  - destruct v; [exact Hs|]. destruct (too_long maxd (n :: v)); [exact Hs|].
+    cbn [fst]. apply inv_put; [|exact Hs]. unfold M_STORE_META, M_COLL_STORE. destruct (N.eqb c 0); assumption.
   - destruct (aget (data (cget s c)) k); [|exact Hs]. cbn [fst]. apply inv_aset; [exact Hs|].
     intros snap. rewrite drop_cache_none; [discriminate|]. unfold M_DELETE, M_COLL_DELETE. destruct (N.eqb c 0); assumption.
-  - match goal with |- context [if ?b then _ else _] => destruct b end; [exact Hs|]. cbn [fst].
-    revert s Hs. induction kvs as [|kv r IH]; intros s Hs; cbn [fold_left]; [exact Hs|].
+  - match goal with |- context [if ?b then _ else _] => destruct b end; [exact Hs|].
+    generalize 0 as cnt. revert s Hs. induction kvs as [|kv r IH]; intros s Hs cnt; cbn [batch_put fst]; [exact Hs|].
+    destruct (too_long maxd (snd kv)); [exact Hs|].
     apply IH. apply inv_put; [exact H0|exact Hs].
   - match goal with |- context [let '(_, _) := ?e in _] => destruct e as [d n] end. cbn [fst]. apply inv_aset; [exact Hs|].
     intros snap. rewrite drop_cache_none; [discriminate|exact H3].
@@ -348,8 +352,11 @@ Definition stale_witness (m : N) : list op :=
 Theorem cache_discipline_needed m : In m mutators -> inval m = false -> ~ CacheInv (runm [] (stale_witness m)).
 Proof.
   intros Hm E Hinv. unfold mutators in Hm. cbn [In] in Hm.
+  assert (Htl : too_long maxd [1] = false).
+  { unfold too_long. cbn [length]. destruct (N.eqb_spec maxd 0); cbn; [reflexivity|]. apply N.ltb_ge. lia. }
   set (w := stored keep eps num den [1]) in *.
   repeat (destruct Hm as [<-|Hm]); [..|contradiction]; cbn [stale_witness run step fst] in Hinv;
+    rewrite ?Htl in Hinv; cbn [fst] in Hinv;
     unfold put_vec, cget, drop_cache, M_STORE, M_DELETE, M_STORE_META, M_BATCH_DELETE, M_CLEAR, M_COLL_STORE, M_COLL_DELETE, M_DELETE_COLL in Hinv;
     cbn [aget aset adel N.eqb data cache created empty_coll dims_consistent forallb fold_left] in Hinv;
     fold w in Hinv.
@@ -369,7 +376,7 @@ Lemma same_dim_sym (a b : vec) : same_dim a b = same_dim b a.
 Proof. unfold same_dim. apply Nat.eqb_sym. Qed.
 
 Theorem search_path_sound s c q k : CacheInv s ->
-  match search_path true s c q k with
+  match search_path true maxd s c q k with
   | PCached snap => snap = data (cget s c) /\ forall kv, In kv snap -> same_dim (snd kv) q = true
   | PExact m d => m = 0 /\ d = data (cget s c)
   | PPanic => False
@@ -377,7 +384,8 @@ Theorem search_path_sound s c q k : CacheInv s ->
   end.
 Proof.
   intros Hinv. unfold search_path. destruct q as [|x q]; [exact I|].
-  destruct (N.eqb k 0); [exact I|]. destruct (zero_query (x :: q)); [exact I|].
+  destruct (N.eqb k 0); [exact I|]. destruct (N.eqb c 0 && too_long maxd (x :: q)); [exact I|].
+  destruct (zero_query (x :: q)); [exact I|].
   destruct (cache (cget s c)) as [[|e r]|] eqn:Ec; try (split; reflexivity).
   destruct (same_dim (snd e) (x :: q)) eqn:Ed; [|split; reflexivity].
   unfold cget in *. destruct (aget s c) as [xc|] eqn:Ea; [|discriminate].
@@ -389,7 +397,7 @@ Qed.
 (* filtered search with the fallback and the dimension guard: an exact search over the vectors that
    match the filter, or (valid cached index) candidates from the index restricted to them *)
 Theorem filtered_path_sound s t c q k b strat : CacheInv s ->
-  match filtered_path true true s t c q k b strat with
+  match filtered_path true maxd true s t c q k b strat with
   | FExact m => m = matching t c b (data (cget s c))
   | FCachedOrExact snap m => snap = data (cget s c) /\ m = matching t c b (data (cget s c))
   | FErr _ | FEmpty => True
@@ -397,30 +405,31 @@ Theorem filtered_path_sound s t c q k b strat : CacheInv s ->
   end.
 Proof.
   intros Hinv. unfold filtered_path. destruct q as [|x q]; [exact I|].
-  destruct (N.eqb k 0); [exact I|]. destruct (zero_query (x :: q)) eqn:Ez; [exact I|].
+  destruct (N.eqb k 0); [exact I|]. destruct (N.eqb c 0 && too_long maxd (x :: q)); [exact I|].
+  destruct (zero_query (x :: q)) eqn:Ez; [exact I|].
   match goal with |- context [if N.eqb ?ch 1 then _ else _] => destruct (N.eqb ch 1) end; [reflexivity|].
   pose proof (search_path_sound s c (x :: q) (3 * k) Hinv) as Hp.
-  destruct (search_path true s c (x :: q) (3 * k)) as [e| |snap|m d| ]; try exact I.
+  destruct (search_path true maxd s c (x :: q) (3 * k)) as [e| |snap|m d| ]; try exact I.
   - destruct Hp as [Hs _]. split; [exact Hs|reflexivity].
   - reflexivity.
   - exact Hp.
 Qed.
 
-Lemma search_path_slot_id dg s c q k : search_path_slot dg (fun x => x) s c q k = search_path dg s c q k.
+Lemma search_path_slot_id dg s c q k : search_path_slot dg maxd (fun x => x) s c q k = search_path dg maxd s c q k.
 Proof. reflexivity. Qed.
 
 (* known finding reserved-default-name: a named collection (here id 9) whose cache lookups land in the
    default collection's slot is answered from the default collection's index *)
-Lemma reserved_name_refuted : AllInvalidate ->
+Lemma reserved_name_refuted : AllInvalidate -> maxd = 0 ->
   let s := runm [] [OStore 0 0 [1065353216; 1065353216]; OBuild 0; OStore 9 7 [1073741824; 1065353216]] in
   CacheInv s /\
-  exists snap, search_path_slot true (fun c => if N.eqb c 9 then 0 else c) s 9 [1065353216; 1065353216] 1 = PCached snap
+  exists snap, search_path_slot true maxd (fun c => if N.eqb c 9 then 0 else c) s 9 [1065353216; 1065353216] 1 = PCached snap
                /\ snap <> data (cget s 9).
 Proof.
-  intros Hall s. split; [apply cache_discipline; [exact Hall|apply CacheInv_init]|].
+  intros Hall Hmax s. split; [apply cache_discipline; [exact Hall|apply CacheInv_init]|].
   assert (H0 : inval 0 = true) by (apply Hall; cbn; tauto).
   assert (H5 : inval 5 = true) by (apply Hall; cbn; tauto).
-  unfold s. cbn [run step fst]. unfold put_vec, cget, drop_cache, search_path_slot, M_STORE, M_COLL_STORE.
+  unfold s. subst maxd. cbn [run step fst too_long N.eqb negb andb]. unfold put_vec, cget, drop_cache, search_path_slot, too_long, M_STORE, M_COLL_STORE.
   cbn [aget aset N.eqb data cache created empty_coll dims_consistent forallb].
   rewrite ?H0, ?H5.
   set (w := stored keep eps num den [1065353216; 1065353216]).
